@@ -84,7 +84,9 @@ func p384PartialCollision(m, n, b, r *big.Int) bool {
 func p384Adapter() *adapter {
 	c := p384.P384()
 	ref := curves.P384
-	ad := &adapter{name: "p384", r: ref.R, sbytes: 48}
+	ad := &adapter{name: "p384", r: ref.R, sbytes: 48, wc: ref}
+	ad.mkW = func(p curves.WPoint) pt { return wXY(p) }
+	ad.encW = wStr
 	ad.ref = func(k *big.Int) string { return wStr(ref.MulG(k)) }
 	ad.mk = func(a *big.Int) pt { return wXY(ref.MulG(a)) }
 	ad.enc = xyEnc
@@ -110,6 +112,7 @@ func TestC13P384(t *testing.T) {
 	selftest(t)
 	ad := p384Adapter()
 	runAdapter(t, ad, 250, 1000)
+	runSpecialW(t, ad, 120)
 	// scalars given with other byte lengths (elliptic.Curve takes a big-endian number of any length)
 	t.Run("p384-scalar-lengths", func(t *testing.T) {
 		c := p384.P384()
@@ -191,7 +194,15 @@ func sec1(c *curves.WCurve, p curves.WPoint) []byte {
 
 func nistGroupAdapter(g group.Group, ref *curves.WCurve) *adapter {
 	n := int(g.Params().ScalarLength)
-	ad := &adapter{name: "group." + ref.Name, r: ref.R, sbytes: n}
+	ad := &adapter{name: "group." + ref.Name, r: ref.R, sbytes: n, wc: ref}
+	ad.mkW = func(p curves.WPoint) pt {
+		e := g.NewElement()
+		if err := e.UnmarshalBinary(sec1(ref, p)); err != nil {
+			panic(fmt.Sprintf("SELFTEST-FAIL %s: cannot decode reference point: %v", ad.name, err))
+		}
+		return e
+	}
+	ad.encW = func(p curves.WPoint) string { return hex.EncodeToString(sec1(ref, p)) }
 	ad.ref = func(k *big.Int) string { return hex.EncodeToString(sec1(ref, ref.MulG(k))) }
 	ad.mk = func(a *big.Int) pt {
 		e := g.NewElement()
@@ -234,6 +245,7 @@ func TestC13GroupNIST(t *testing.T) {
 	}{{group.P256, curves.P256, elliptic.P256(), 1}, {group.P384, curves.P384, elliptic.P384(), 1}, {group.P521, curves.P521, elliptic.P521(), 2}} {
 		ad := nistGroupAdapter(x.g, x.ref)
 		runAdapter(t, ad, 150/x.div, 600/x.div)
+		runSpecialW(t, ad, 60/x.div)
 		// generator, identity and SetBigInt scalars
 		g, ref, ec := x.g, x.ref, x.ec
 		t.Run(ad.name+"-api", func(t *testing.T) {
